@@ -285,7 +285,7 @@ func run(r *harness.Run) {
 	for _, c := range cpRunes {
 		cps = append(cps, mkSpells(c))
 	}
-	r.Rule("bounded-exhaustive: (A) every string of <=L code points over a 27-symbol alphabet in every escape spelling, as value and as object key; (B) every object of <=K keys from a 14-key menu in every key order with <=1 respelled key; (C) every JSON tree of <=N nodes over small leaf/key menus x whitespace at every gap with <=W non-default gaps (deviation-bounded DFS); (D) every single-byte insertion/deletion/substitution/truncation of the canonical texts of C; (E) 29 number literals x 61 contexts (11 structural, 50 under member names of the event vocabulary such as unsigned / signatures / content at several depths) x all 16 room versions through EnforcedCanonicalJSON. Non-trivial = distinct text whose canonical form differs from the text (A-C), distinct invalid text rejected (D), distinct (version,text) with a decisive number (E). Oracle: independent reference parser/emitter refjson + encoding/json.Valid.")
+	r.Rule("bounded-exhaustive: (A) every string of <=L code points over a 27-symbol alphabet in every escape spelling, as value and as object key; (B) every object of <=K keys from a 14-key menu in every key order with <=1 respelled key; (C) every JSON tree of <=N nodes over small leaf/key menus x whitespace at every gap with <=W non-default gaps (deviation-bounded DFS); (D) every single-byte insertion/deletion/substitution/truncation of the canonical texts of C; (E) 29 number literals x 61 contexts (11 structural, 50 under member names of the event vocabulary such as unsigned / signatures / content at several depths) x all 16 room versions through EnforcedCanonicalJSON; (F) wide objects and long arrays: widths around every power of two from 8 to 1024 (thorough: to 65536) x 4 key shapes x 5 input orders, alone and nested. Non-trivial = distinct text whose canonical form differs from the text (A-C), distinct invalid text rejected (D), distinct (version,text) with a decisive number (E). Oracle: independent reference parser/emitter refjson + encoding/json.Valid.")
 	r.Assume("encoding/json.Valid and refjson agree on validity (texts where they disagree are skipped and counted)", "texts that are not UTF-8, have duplicate keys or lone surrogates are outside the property and only checked for no-panic")
 	report := func(v *verdict, kind string, input interface{}) {
 		if v != nil {
@@ -604,5 +604,82 @@ func run(r *harness.Run) {
 			r.Violation("unknown-version:"+string(v), "registered room version missing from the reference table", "none", nil)
 		}
 	}
+	// (F) wide objects and long arrays: every width of a boundary menu (around the powers of two at which an implementation's
+	// small buffers or index types change: 8, 16, 32, 64, 128, 256, 512, 1024, thorough also 4096 and 65536) x key shapes x
+	// input orders, alone and nested; each member carries a distinct value so a dropped, repeated or misplaced member is seen.
+	var widths []int
+	for _, p2 := range []int{8, 16, 32, 64, 128, 256, 512, 1024} {
+		widths = append(widths, p2-1, p2, p2+1, p2+2)
+	}
+	widths = append(widths, 3, 5, 100, 200, 300, 700)
+	if r.Tier == "thorough" {
+		widths = append(widths, 4095, 4096, 4097, 65535, 65536, 65537)
+	}
+	keyShapes := []func(i int) string{
+		func(i int) string { return fmt.Sprintf("k%06d", i) },                  // fixed width: code-point order = numeric order
+		func(i int) string { return fmt.Sprint(i) },                            // variable width: "10" < "9"
+		func(i int) string { return strings.Repeat("a", i%7) + fmt.Sprint(i) }, // shared prefixes of differing length
+		func(i int) string { return "@u" + fmt.Sprint(i) + ":a.org" },          // user IDs (a power-levels users map)
+	}
+	orders := []func(n, i int) int{
+		func(n, i int) int { return i },             // as generated
+		func(n, i int) int { return n - 1 - i },     // reversed
+		func(n, i int) int { return (i + 1) % n },   // rotated by one
+		func(n, i int) int { return (i + n/2) % n }, // rotated by half
+		func(n, i int) int { // evens then odds
+			if h := (n + 1) / 2; i < h {
+				return 2 * i
+			} else {
+				return 2*(i-h) + 1
+			}
+		},
+	}
+	type wcase struct{ n, ks, ord int }
+	var wcases []wcase
+	for _, n := range widths {
+		for ks := range keyShapes {
+			for o := range orders {
+				wcases = append(wcases, wcase{n, ks, o})
+			}
+		}
+	}
+	r.Parallel(len(wcases), func(i int) {
+		c := wcases[i]
+		obj := &refjson.Value{Kind: refjson.Object}
+		arr := &refjson.Value{Kind: refjson.Array}
+		seen := map[int]bool{}
+		var sb, ab strings.Builder
+		sb.WriteByte('{')
+		ab.WriteByte('[')
+		cnt := 0
+		for j := 0; j < c.n; j++ {
+			idx := orders[c.ord](c.n, j)
+			if idx < 0 || idx >= c.n || seen[idx] {
+				continue // the order function is not a bijection for this n: keep the text duplicate-free
+			}
+			seen[idx] = true
+			if cnt > 0 {
+				sb.WriteByte(',')
+				ab.WriteByte(',')
+			}
+			cnt++
+			k := keyShapes[c.ks](idx)
+			obj.Members = append(obj.Members, refjson.Member{Key: k, Val: &refjson.Value{Kind: refjson.Number, Num: fmt.Sprint(idx)}})
+			arr.Elems = append(arr.Elems, &refjson.Value{Kind: refjson.String, Str: k})
+			sb.WriteString(`"` + k + `":` + fmt.Sprint(idx))
+			ab.WriteString(`"` + k + `"`)
+		}
+		sb.WriteByte('}')
+		ab.WriteByte(']')
+		doText([]byte(sb.String()), obj)
+		doText([]byte(ab.String()), arr)
+		if c.ks == 3 || c.ord == 1 {
+			// nested: as a member value (an event's content.users), inside an array, and next to a second wide object
+			doText([]byte(`{"z":1,"content":{"users":`+sb.String()+`,"a":[`+ab.String()+`]},"a":0}`), nil)
+			doText([]byte(`[`+sb.String()+`,`+sb.String()+`]`), nil)
+		}
+	})
+	r.Count("F_wide_cases", int64(len(wcases)))
+	r.Extra("F_widths", widths)
 	r.Extra("bounds", map[string]int{"L_codepoints": L, "K_keys": K, "N_tree_nodes": N, "W_whitespace_deviations": W, "ND_corruption_nodes": ND})
 }
